@@ -285,6 +285,12 @@ def parallel_part(chk):
             first = {}
             for s in specs:
                 s.suite_build = first.setdefault(s.suite, s).suite_build
+            if i % 2 == 1:
+                # ONE build script (same commands, same directory) declared by two executors of different names: still one build
+                for k, s in enumerate(specs):
+                    s.exe = s.exe_key = ("exeA", "exeB")[k % 2]
+                    s.exe_path, s.suite, s.suite_build = "/vm", "S_" + s.name, None
+                chk.count("parallel_build_sessions_one_script_under_two_names")
             case = dict(specs=[s.describe() for s in specs], scheduler="parallel", failing=["make vm"] if fail else [])
             obs = run_parallel_slow_builds(specs, os.path.join(d, "p.data"), ["make vm"] if fail else [])
             if isinstance(obs.result, str):
